@@ -96,7 +96,7 @@ func init() {
 		{"NetAddBus", 8, func(g *Gen, p *Pool) (Op, bool) { return mk("NetAddBus", g.r.pick(p.of(KNet)), g.ptr(p.of(KBus))) }},
 		{"NetRemoveBus", 4, func(g *Gen, p *Pool) (Op, bool) {
 			n := g.r.pick(p.of(KNet))
-			if bs := p.net(n).Buses(); len(bs) > 0 && g.r.chance(70) {
+			if bs := p.net(n).Buses(); len(bs) > 0 && g.r.chance(55) {
 				return mk("NetRemoveBus", n, int64(p.byID[bs[g.r.below(len(bs))].EntityID()]))
 			}
 			return mk("NetRemoveBus", n, g.anyHandle(p))
@@ -108,7 +108,7 @@ func init() {
 		}},
 		{"BusRemoveNodeInterface", 4, func(g *Gen, p *Pool) (Op, bool) {
 			b := g.r.pick(p.of(KBus))
-			if is := p.bus(b).NodeInterfaces(); len(is) > 0 && g.r.chance(70) {
+			if is := p.bus(b).NodeInterfaces(); len(is) > 0 && g.r.chance(55) {
 				return mk("BusRemoveNodeInterface", b, int64(p.byID[is[g.r.below(len(is))].Node().EntityID()]))
 			}
 			return mk("BusRemoveNodeInterface", b, g.anyHandle(p))
@@ -130,7 +130,7 @@ func init() {
 		{"IfAddSent", 12, func(g *Gen, p *Pool) (Op, bool) { return mk("IfAddSent", g.r.pick(liveIfaces(p)), g.ptr(p.of(KMsg))) }},
 		{"IfRemoveSent", 4, func(g *Gen, p *Pool) (Op, bool) {
 			i := g.r.pick(liveIfaces(p))
-			if ms := p.iface(i).SentMessages(); len(ms) > 0 && g.r.chance(70) {
+			if ms := p.iface(i).SentMessages(); len(ms) > 0 && g.r.chance(55) {
 				return mk("IfRemoveSent", i, int64(p.byID[ms[g.r.below(len(ms))].EntityID()]))
 			}
 			return mk("IfRemoveSent", i, g.anyHandle(p))
@@ -139,7 +139,7 @@ func init() {
 		{"IfAddReceived", 5, func(g *Gen, p *Pool) (Op, bool) { return mk("IfAddReceived", g.r.pick(liveIfaces(p)), g.ptr(p.of(KMsg))) }},
 		{"IfRemoveReceived", 3, func(g *Gen, p *Pool) (Op, bool) {
 			i := g.r.pick(liveIfaces(p))
-			if ms := p.iface(i).ReceivedMessages(); len(ms) > 0 && g.r.chance(70) {
+			if ms := p.iface(i).ReceivedMessages(); len(ms) > 0 && g.r.chance(55) {
 				return mk("IfRemoveReceived", i, int64(p.byID[ms[g.r.below(len(ms))].EntityID()]))
 			}
 			return mk("IfRemoveReceived", i, g.anyHandle(p))
@@ -151,7 +151,7 @@ func init() {
 		{"MsgAddReceiver", 5, func(g *Gen, p *Pool) (Op, bool) { return mk("MsgAddReceiver", g.r.pick(p.of(KMsg)), g.ptr(liveIfaces(p))) }},
 		{"MsgRemoveReceiver", 3, func(g *Gen, p *Pool) (Op, bool) {
 			m := g.r.pick(p.of(KMsg))
-			if rs := p.msg(m).Receivers(); len(rs) > 0 && g.r.chance(70) {
+			if rs := p.msg(m).Receivers(); len(rs) > 0 && g.r.chance(55) {
 				return mk("MsgRemoveReceiver", m, int64(p.byID[rs[g.r.below(len(rs))].Node().EntityID()]))
 			}
 			return mk("MsgRemoveReceiver", m, g.anyHandle(p))
@@ -159,7 +159,7 @@ func init() {
 		{"EnumAddValue", 9, func(g *Gen, p *Pool) (Op, bool) { return mk("EnumAddValue", g.r.pick(p.of(KEnum)), g.ptr(p.of(KEval))) }},
 		{"EnumRemoveValue", 3, func(g *Gen, p *Pool) (Op, bool) {
 			e := g.r.pick(p.of(KEnum))
-			if vs := p.enum(e).Values(); len(vs) > 0 && g.r.chance(70) {
+			if vs := p.enum(e).Values(); len(vs) > 0 && g.r.chance(55) {
 				return mk("EnumRemoveValue", e, int64(p.byID[vs[g.r.below(len(vs))].EntityID()]))
 			}
 			return mk("EnumRemoveValue", e, g.anyHandle(p))
